@@ -157,6 +157,10 @@ def drawn_cases(draw, tier):
         spec = {"user": draw(gens.user_filter_cfgs(k))}
     max_len = 48 if tier == "quick" else 300
     msgs = draw(st.lists(gens.messages(max_len, min_len=1), min_size=1, max_size=3 if tier == "quick" else 8))
+    if k <= 5 and draw(st.sampled_from([True, False, False])):
+        # one message of a few hundred bits (encoded from six start vertices only): lengths at which an
+        # implementation may switch to another strategy
+        msgs = msgs[:2] + [draw(gens.messages(420 if tier == "quick" else 1000, min_len=100))]
     return dict(spec, k=k, t=t, msgs=msgs, table=draw(gens.tables(k)),
                 pick=draw(st.integers(0, 2 ** 32 - 1)), fast=draw(st.booleans()))
 
@@ -196,8 +200,14 @@ def evaluate_drawn(case):
     else:
         labels.append("all_starts")
     nontrivial = False
-    for start in starts:
+    for rank, start in enumerate(starts):
         for i, bits in enumerate(case["msgs"]):
+            if len(bits) >= 100 and i >= 2:
+                if rank >= 6:
+                    continue
+                labels.append("message>=100_bits")
+                if len(bits) >= 128 and has_deg1:
+                    labels.append("message>=128_bits_on_graph_with_deg1")
             fast = case["fast"] and fast_ok(rows, k, start)
             detail = check_encode(rows, k, start, bits, fast, case["table"], t, labels)
             if detail:
@@ -219,7 +229,8 @@ SUBCHECKS = [
              rule=RULE, timeout=120.0),
     SubCheck("drawn_generated", evaluate_drawn, strategy=drawn_cases, examples=(2000, 12000), shards=(16, 16),
              floors={"graph_with_deg1": 30, "trimmed": 60, "deg1_traversed": 30, "fast": 40, "src:local": 40,
-                     "src:user": 40}, rule=RULE, timeout=120.0),
+                     "src:user": 40, "message>=100_bits": 200, "message>=128_bits_on_graph_with_deg1": 10}, rule=RULE,
+             timeout=120.0),
     SubCheck("long_messages_generated", evaluate_drawn,
              enum=(lambda tier: 6 if tier == "quick" else 24,
                    lambda i, tier: {"k": 2, "t": 1 + i % 2, "mask": ["1111111111111111", "0110100110010110",
